@@ -1,4 +1,4 @@
-"""C19 -- pattern matching and restructuring (clauses R19.1-R19.13)."""
+"""C19 -- pattern matching and restructuring (clauses R19.1-R19.14)."""
 from __future__ import annotations
 
 import ast
@@ -21,6 +21,7 @@ EXPLANATION = (
     ' R19.9: the goal is re-indented relative to the START of the match region.'
     ' R19.10: a pattern is reduced to an expression node only when it is exactly one statement.'
 )
+EXPLANATION += ' R19.13 also requires the elif test to compare the positions of the two ifs.  R19.14: the overlap test runs over matches in source order.'
 EXPLANATION += ' R19.13: an elif clause is not offered to the statement matcher.'
 EXPLANATION += ' R19.12: a function that remembers its answer under a key reads, in the computation of the remembered value, nothing of its parameters that the key does not contain (followed into the helpers it calls).'
 ASSUMPTIONS = ["node.region is exact (rests on C08)"]
@@ -147,6 +148,7 @@ def check(ctx, res) -> None:
 
     memo_key_rule(ctx, res, "R19.12", ("rope.refactor.similarfinder", "rope.refactor.restructure", "rope.refactor.wildcards"))
     _elif_clause_rule(ctx, res)
+    _source_order_rule(ctx, res)
 
 
 def _check_main(ctx, res) -> None:
@@ -566,18 +568,28 @@ def _elif_clause_rule(ctx, res) -> None:
             continue
         n += 1
 
+        missing_position = {"v": False}
+
         def looks_at_elif(t) -> bool:
             texts = [t]
             for c in ast.walk(t):
+                m = None
                 if isinstance(c, ast.Call) and is_self_attr(c.func) and cls is not None:
                     m = idx.find_method(cls.qualname, c.func.attr)
-                    if m is not None:
-                        texts.append(m.node)
+                elif isinstance(c, ast.Call) and isinstance(c.func, ast.Name):
+                    m = idx.functions.get(f"{f.unit.modname}.{c.func.id}")
+                if m is not None:
+                    texts.append(m.node)
             has_field = any(isinstance(x, ast.Constant) and x.value == "orelse" for tt in texts for x in ast.walk(tt)) or \
                 any(isinstance(x, ast.Attribute) and x.attr == "orelse" for tt in texts for x in ast.walk(tt))
             has_kind = any(isinstance(x, ast.Call) and call_name(x) == "isinstance" and len(x.args) == 2 and (dotted(x.args[1]) or "").split(".")[-1] == "If"
                            and isinstance(x.args[0], ast.Subscript) for tt in texts for x in ast.walk(tt))
-            return has_field and has_kind
+            # `else:` + a nested `if` has the same tree as `elif`; only the position tells them apart (the elif's If starts in
+            # the column of the outer if): without that comparison the statements of an else block that consists of one `if`
+            # are never offered to the matcher, and instances there are not found
+            has_pos = sum(1 for tt in texts for x in ast.walk(tt) if isinstance(x, ast.Attribute) and x.attr == "col_offset") >= 2
+            missing_position["v"] = missing_position["v"] or (has_field and has_kind and not has_pos)
+            return has_field and has_kind and has_pos
         # "not (field is orelse and it is an elif clause)" is a disjunction, so it is no single guard of the call: what must
         # hold is that within one round of the field loop the call cannot be reached from the edge on which the test
         # (with the field-name test in front of it or inside it) answered yes
@@ -594,7 +606,51 @@ def _elif_clause_rule(ctx, res) -> None:
                     ok = True
         res.add("R19.13", f"_ASTMatcher._check_statements|elif-clause-is-no-statement-list#{n}", ok, f"{f.unit.rel}:{nd.lineno}",
                 "the orelse list that is an elif clause is not offered to the statement matcher" if ok else
+                ("the test that skips an `orelse` holding a single If does not compare positions (`col_offset` of the nested If and of the outer one): an `else:` block whose "
+                 "only statement is an `if` looks the same and is skipped too -- an instance of the pattern in it is not reported, and a restructuring rewrites its siblings but "
+                 "not it") if missing_position["v"] else
                 f"`{ast.unparse(calls[0])}` is applied to every list-valued field, also to the `orelse` of an If that holds one If spelled `elif`: the pattern "
                 "`if ${c}: ...` matches the clause, the match's region starts at the keyword `elif`, and restructuring writes the goal over it -- `elif b:` becomes "
                 "`if b:` and the program takes both branches", function=f.qualname)
     res.floor("R19.13", "applications of the statement-list matcher", n, 1)
+
+
+def _source_order_rule(ctx, res) -> None:
+    """R19.14: the replacement loop drops a statement match whose start lies before the end of the match it handled last
+    ("overlapping").  That is a statement about positions only if the matches arrive in SOURCE ORDER.  The finder walks the
+    tree node by node and offers each node's statement lists in turn: the matches of a nested block come after those of the
+    block around it, whatever their position.  The loop that keeps the watermark therefore iterates over the matches
+    sorted by region (or the matches are sorted where they are stored)."""
+    from . import common as _common
+    idx = ctx.idx
+    gch = idx.need_func("rope.refactor.restructure._ChangeComputer.get_changed")
+    node = _common.inline_private_calls(idx, gch, keep=("_is_expression",))
+    loops = [l for l in walk_local(node) if isinstance(l, ast.For) and any(call_name(c) == "get_region" for c in calls_in(l))
+             and any(call_name(c) == "add_change" for c in calls_in(l))]
+    if not loops:
+        raise AnalysisError("anchor=_ChangeComputer.get_changed: the loop over the matches not found")
+    cls = gch.cls
+    n = 0
+    for lp in loops:
+        # only the loop with a watermark matters
+        if not any(isinstance(x, ast.Compare) and len(x.ops) == 1 and isinstance(x.ops[0], (ast.Lt, ast.LtE, ast.Gt, ast.GtE)) for st in lp.body for x in ast.walk(st)):
+            continue
+        n += 1
+        it = _common._subst_single_locals(node, lp.iter)
+        sorted_here = any(isinstance(c, ast.Call) and call_name(c) == "sorted" for c in ast.walk(it))
+        sorted_at_store = False
+        if cls is not None:
+            for m in cls.methods.values():
+                for x in walk_local(m.node):
+                    if isinstance(x, ast.Assign) and any(is_self_attr(t, "matches") for t in x.targets) and any(isinstance(c, ast.Call) and call_name(c) == "sorted" for c in ast.walk(x.value)):
+                        sorted_at_store = True
+                    if isinstance(x, ast.Expr) and isinstance(x.value, ast.Call) and call_name(x.value) == "sort" and isinstance(x.value.func, ast.Attribute) and is_self_attr(x.value.func.value, "matches"):
+                        sorted_at_store = True
+        ok = sorted_here or sorted_at_store
+        res.add("R19.14", f"_ChangeComputer.get_changed|matches-in-source-order#{n}", ok, f"{gch.unit.rel}:{lp.lineno}",
+                "the matches are handled in source order, so `start < last_end` means overlap" if ok else
+                f"the loop `for ... in {ast.unparse(lp.iter)[:40]}` compares each match with the end of the previous one, but the matches come in the finder's traversal order (a "
+                "block's matches before those of the blocks nested in it): a nested instance that lies BEFORE a later top-level instance is taken for an overlap and left "
+                "unrewritten, while its siblings are rewritten", function=gch.qualname)
+    # (no overlap test at all is R19.4's finding)
+    res.analysed["replacement loops with an overlap test:R19.14"] = n
